@@ -312,7 +312,7 @@ def run(ctx):
         for name, sim, depth in gens:
             jobs.append((name, dict(spec="mc/MC_JsonText.tla", cfg="mc/JsonText_%s.cfg" % ("gen" + name if sim is None else "sim"),
                                     workers=1, simulate=sim,
-                                    depth=(depth + 1 if depth else None), deadlock=False, timeout=3000)))
+                                    depth=(depth + 2 if depth else None), deadlock=False, timeout=3000)))
         results = tlc_many(ctx, jobs, par=4)
         behaviours = []
         per_gen = {}
